@@ -141,8 +141,11 @@ def _read_back(font, version, gname, ncolors):
         t = colr.table
         rec = [r for r in t.BaseGlyphList.BaseGlyphPaintRecord if r.BaseGlyph == gname][0]
         p = rec.Paint
-        assert p.Format == 1, p.Format
-        layers = t.LayerList.Paint[p.FirstLayerIndex: p.FirstLayerIndex + p.NumLayers]
+        if p.Format == 10:   # a single layer is stored without a PaintColrLayers wrapper
+            layers = [p]
+        else:
+            assert p.Format == 1, p.Format
+            layers = t.LayerList.Paint[p.FirstLayerIndex: p.FirstLayerIndex + p.NumLayers]
         for lp in layers:
             assert lp.Format == 10, lp.Format  # PaintGlyph
             s = lp.Paint
